@@ -787,7 +787,40 @@ class Interp:
             raise Raised(type(ex).__name__) from None
         raise AnalysisError(f"binary operator {type(op).__name__} not modelled")
 
+    def _dataclass_eq_fields(self, cls: Any) -> list[str] | None:
+        """Fields compared by the `__eq__` that `@dataclass` generates for `cls` (None: the class is not a dataclass with eq, or writes its own `__eq__`)."""
+        if "__eq__" in getattr(cls, "methods", {}):
+            return None
+        deco = None
+        for d in cls.node.decorator_list:
+            if (dotted(d.func if isinstance(d, ast.Call) else d) or "").split(".")[-1] == "dataclass":
+                deco = d
+        if deco is None:
+            return None
+        if isinstance(deco, ast.Call) and any(k.arg == "eq" and isinstance(k.value, ast.Constant) and k.value.value is False for k in deco.keywords):
+            return None
+        names: list[str] = []
+        for c in reversed(self.prog.mro(cls)):
+            for fname, ann in c.class_annots.items():
+                v = c.class_attrs.get(fname)
+                no_cmp = isinstance(v, ast.Call) and any(k.arg == "compare" and isinstance(k.value, ast.Constant) and k.value.value is False for k in v.keywords)
+                if "ClassVar" in unparse(ann) or no_cmp:
+                    if fname in names:
+                        names.remove(fname)
+                    continue
+                if fname not in names:
+                    names.append(fname)
+        return names
+
     def _eq(self, a: Any, b: Any) -> bool:
+        if isinstance(a, Obj) and a.cls is not None and getattr(a.cls, "node", None) is not None:
+            dc_fields = self._dataclass_eq_fields(a.cls)
+            if dc_fields is not None:
+                # the generated method: same class, then field by field; anything else is NotImplemented (identity in the end)
+                if isinstance(b, Obj) and b.cls is a.cls:
+                    return all(self._eq(a.attrs.get(f_), b.attrs.get(f_)) for f_ in dc_fields)
+                if not (isinstance(b, Obj) and b.cls is not None and self.prog.lookup_method(b.cls, "__eq__")):
+                    return a is b
         if isinstance(a, Obj) and a.cls is not None and self.prog.lookup_method(a.cls, "__eq__"):
             r = self._call_dunder(a, "__eq__", [b])
             if not (isinstance(r, Sym) and r.name == "NotImplemented"):
@@ -798,6 +831,10 @@ class Interp:
                 return self.truth(r)
         if isinstance(a, Obj) or isinstance(b, Obj):
             return a is b
+        if type(a) is type(b) and isinstance(a, (list, tuple)):  # sequences compare element by element, with the elements' own equality
+            return len(a) == len(b) and all(self._eq(x, y) for x, y in zip(a, b))
+        if type(a) is type(b) and isinstance(a, dict) and any(isinstance(v, Obj) for v in [*a.values(), *b.values()]):
+            return a.keys() == b.keys() and all(self._eq(v, b[k]) for k, v in a.items())
         return a == b
 
     def _contains(self, container: Any, item: Any) -> bool:
